@@ -457,6 +457,13 @@ class Executor(EvalMixin, MethodsMixin, ExecMixin):
             if spec == "emptylist":
                 return st.alloc(HCList([]))
             raise ContractError("param spec %r" % spec)
+        if spec[0] == "same":
+            # alias: the very object another (earlier) parameter path denotes, e.g. ("same", "self.fmtdict")
+            parts = spec[1].split(".")
+            v = st.env[parts[0]]
+            for fld in parts[1:]:
+                v = st.heap[v.oid].f[fld]
+            return v
         if spec[0] == "reclist":
             n = z3.Int(fresh_name(nm + "_len"))
             st.assume(n >= 0)
